@@ -675,21 +675,31 @@ pub fn op_enc2(args: &[&str]) -> String {
     let sink = PostOrderMemOutboard { root: ob.root, tree, data: vec![0u8; tree.outboard_size() as usize] };
     let mut sink = sink;
     let r = sync::decode_ranges(&e2[..], &q1, &mut target, &mut sink);
-    format!("{} {} {}", dig(&e1), dig(&e2), r.map(|_| "Done".to_string()).unwrap_or_else(|e| dec_err(&e)))
+    // and the encoding of q1 with the query q2, through the async decoder (which owns and
+    // canonicalises its query by a separate function)
+    let mut target2 = BytesMut::from(&vec![0u8; data.len()][..]);
+    let mut sink2 = PreOrderMemOutboard { root: ob.root, tree, data: vec![0u8; tree.outboard_size() as usize] };
+    let r2 = block_on(fsm::decode_ranges(&e1[..], q2.clone(), &mut target2, &mut sink2));
+    let fin = |r: Result<(), bao_tree::io::DecodeError>| r.map(|_| "Done".to_string()).unwrap_or_else(|e| dec_err(&e));
+    format!("{} {} {} {}", dig(&e1), dig(&e2), fin(r), fin(r2))
 }
 
 /// extended corruption: `d<pos>^x`, `o<pos>^x`, `r<pos>^x` (root), `Zd<a>:<len>` / `Zo<a>:<len>` (zero a region)
-pub fn corrupt_ext(spec: &str, data: &mut [u8], ob: &mut [u8], root: &mut [u8; 32]) {
+pub fn corrupt_ext(spec: &str, data: &mut Vec<u8>, ob: &mut [u8], root: &mut [u8; 32]) {
     if spec == "-" {
         return;
     }
     for c in spec.split(',') {
-        if let Some(rest) = c.strip_prefix('Z') {
+        if let Some(rest) = c.strip_prefix("Td") {
+            // partially filled store: the data file ends early
+            let len: usize = rest.parse().unwrap();
+            data.truncate(len);
+        } else if let Some(rest) = c.strip_prefix('Z') {
             let (which, rest) = rest.split_at(1);
             let (a, len) = rest.split_once(':').unwrap();
             let a: usize = a.parse().unwrap();
             let len: usize = len.parse().unwrap();
-            let tgt = if which == "d" { &mut *data } else { &mut *ob };
+            let tgt: &mut [u8] = if which == "d" { &mut data[..] } else { &mut *ob };
             for i in a..(a + len).min(tgt.len()) {
                 tgt[i] = 0;
             }
